@@ -702,18 +702,21 @@ impl ParserListener for Screen {
                     );
                 }
             } else if char_width == 0 && is_combining_mark(char) {
+                // A never-written cell reads as a blank default cell.
                 if self.cursor.x > 0 {
-                    if let Some(last) = line.get_mut(&(self.cursor.x - 1)) {
-                        last.data = last.data.nfc().collect::<String>() + &char.to_string();
-                    }
+                    let default = self.default_char();
+                    let line = self.buffer.entry(self.cursor.y).or_insert_with(HashMap::new);
+                    let last = line.entry(self.cursor.x - 1).or_insert(default);
+                    last.data = last.data.nfc().collect::<String>() + &char.to_string();
                 } else if self.cursor.y > 0 {
-                    if let Some(last) = self
+                    let default = self.default_char();
+                    let line = self
                         .buffer
-                        .get_mut(&(self.cursor.y - 1))
-                        .and_then(|l| l.get_mut(&(self.columns - 1)))
-                    {
-                        last.data = last.data.nfc().collect::<String>() + &char.to_string();
-                    }
+                        .entry(self.cursor.y - 1)
+                        .or_insert_with(HashMap::new);
+                    let last = line.entry(self.columns - 1).or_insert(default);
+                    last.data = last.data.nfc().collect::<String>() + &char.to_string();
+                    self.dirty.insert(self.cursor.y - 1);
                 }
             } else {
                 continue; // Unprintable character or doesn't advance the cursor.
